@@ -16,6 +16,7 @@ Beh   ::= {"b":"ok"|"raise"|"suspend_ok"|"suspend_raise", "t": virtual seconds (
 
 import asyncio
 import logging
+import re
 from collections.abc import Sequence
 
 from haiway import Disposables, MissingContext, MissingState, State, ctx
@@ -190,6 +191,75 @@ class Capture(logging.Handler):
         self.sink.append(record)
 
 
+def record_text(record) -> str:
+    try:
+        return record.getMessage()
+    except Exception:  # noqa: BLE001 - a record whose arguments do not fit its format: take the raw message
+        return str(record.msg)
+
+
+_HEX_ID = re.compile(r"[0-9a-fA-F]{32}|[0-9a-fA-F]{8}-[0-9a-fA-F]{4}-[0-9a-fA-F]{4}-[0-9a-fA-F]{4}-[0-9a-fA-F]{12}")
+_NUMBER = re.compile(r"\d+(?:[.,]\d+)?(?:e[-+]?\d+)?")
+_SCOPE_LOG: dict = {}
+
+
+def _shape(text: str, name: str) -> str:
+    text = _HEX_ID.sub("<id>", text)
+    text = re.sub(rf"(?<![A-Za-z0-9_]){re.escape(name)}(?![A-Za-z0-9_])", "<name>", text)
+    return _NUMBER.sub("<n>", text)
+
+
+def scope_log_shapes():
+    """What does THIS library log when a scope is entered and when it is left? Learned once per process from a
+    calibration scope (wording, brackets and number formats of log lines are nobody's contract): returns
+    {"enter": shape, "exit": shape} with identifiers, the scope's name and numbers abstracted away - or None when the two
+    cannot be told apart / nothing mentioning the scope's name is logged (then log-based observations are skipped)."""
+    if "v" in _SCOPE_LOG:
+        return _SCOPE_LOG["v"]
+    from haiway import ctx
+
+    name = "hvcalibration"
+    sink: list = []
+    handler = Capture(sink)
+    root = logging.getLogger()
+    old = root.level
+    root.setLevel(logging.DEBUG)
+    root.addHandler(handler)
+    try:
+
+        async def main():
+            async with ctx.scope(name):
+                await asyncio.sleep(0)
+
+        # in a thread of its own: never touches the caller's (possibly running) event loop
+        import threading
+
+        th = threading.Thread(target=lambda: asyncio.run(main()), daemon=True)
+        th.start()
+        th.join(10)
+    except Exception:  # noqa: BLE001 - calibration only
+        sink.clear()
+    finally:
+        root.removeHandler(handler)
+        root.setLevel(old)
+    lines = [t for t in map(record_text, sink) if "<name>" in _shape(t, name)]
+    v = None
+    if len(lines) >= 2:
+        enter, exit_ = _shape(lines[0], name), _shape(lines[-1], name)
+        if enter != exit_:
+            v = {"enter": enter, "exit": exit_}
+    _SCOPE_LOG["v"] = v
+    return v
+
+
+def scope_log_lines(records, name: str, which: str):
+    """the captured records that are the enter / exit line of a scope called `name` (None: not observable)"""
+    shapes = scope_log_shapes()
+    if shapes is None:
+        return None
+    return [r for r in records if _shape(record_text(r), name) == shapes[which]]
+
+
 class ProgErr(Exception):
     pass
 
@@ -213,7 +283,9 @@ class ProgFalsy(ProgErr):
         return 0
 
 
-EXC = {"Exception": ProgErr, "ExcSubclass": ProgErrSub, "BaseExc": ProgBase, "FalsyExc": ProgFalsy, "GenExit": GeneratorExit}
+# "OwnCancelled": the body itself ends with a CancelledError although nobody asked its task to cancel (it awaited something
+# that was cancelled, or raises one to abort): a body outcome like any other failure
+EXC = {"Exception": ProgErr, "ExcSubclass": ProgErrSub, "BaseExc": ProgBase, "FalsyExc": ProgFalsy, "GenExit": GeneratorExit, "OwnCancelled": asyncio.CancelledError}
 
 
 _UNSET = "unset"
@@ -345,6 +417,12 @@ class Run:
             self.ev("probe", path, lookups=res, fp=self.fingerprint() if op.get("fp") else None)
         elif k == "yield":
             await asyncio.sleep(0)
+        elif k == "reseed":
+            # the program puts the process-wide random generator into a known state (reproducible sampling, a worker that
+            # seeds per request): nothing the library hands out as "fresh" or "unique" may depend on it
+            import random
+
+            random.seed(op["n"])
         elif k == "sleep":
             await asyncio.sleep(op["t"])
         elif k == "wait":
@@ -564,6 +642,10 @@ class Double:
 
     async def __aenter__(self):
         self.run.ev("d_enter_call", self.path, j=self.j)
+        if self.spec["enter"].get("spawn") is not None:
+            # a resource that starts its own background task while it is being set up (a connection's reader, a heartbeat):
+            # ctx.spawn here lands in the task group of the scope that is being entered
+            self.run.spawn({"via": "ctx", "body": [{"k": "wait", "gate": self.spec["enter"]["spawn"]}]}, (*self.path, "dsp", self.j), self.path)
         await self._behave("enter", self.spec["enter"])
         y = self.spec.get("yields")
         if y is None:
